@@ -119,6 +119,8 @@ func VerifStubSkip(d *_cbor.Decoder) error {
 	return nil
 }
 
+type verifNotUint struct{}
+
 const verifMaxItems = 6
 
 // verifSplitArray is the contract for decoding one array item into its raw elements:
@@ -182,6 +184,25 @@ func VerifStubDecoderDecode(d *_cbor.Decoder, dest any) error {
 		}
 		*v = RawMessage(st.data[st.pos : st.pos+l])
 		st.pos += l
+		return nil
+	case *Value:
+		// generic decode of an array: unsigned integers become uint64 (the library's default),
+		// every other element some value that is not a uint64
+		items, end, ok := verifSplitArray(st.data, st.pos)
+		if !ok {
+			return errVerifStub
+		}
+		list := make([]any, len(items))
+		for i, it := range items {
+			major, arg, _, indef, hok := VerifHead(it, 0)
+			if hok && major == 0 && !indef {
+				list[i] = arg
+			} else {
+				list[i] = verifNotUint{}
+			}
+		}
+		v.value = list
+		st.pos = end
 		return nil
 	case *uint64:
 		major, arg, hlen, indef, ok := VerifHead(st.data, st.pos)
